@@ -40,6 +40,8 @@ CELLS = {
     'numeric': ['007', '1.50', '1e5', '-3', '42'],
     'empty': [''],
     'padded': [' lead', 'trail ', '\tboth\t', '  '],
+    # 7-bit ASCII text that charset detectors take for an escape-based encoding (UTF-7, HZ-GB-2312)
+    'encoding_bait': ['SKU+ABCD1234-X', 'Ref+INVOICE1-A', 'x~{AB~}y'],
     'sniffer_bait': ['"Veni"; "vidi"; "vici"', "'Bobby'", "'x';'y'", 'a|b|c'],
 }
 
